@@ -5,6 +5,24 @@
 
 package websocket
 
+// Lock discipline (C09). The per-connection bookkeeping of the logging decorator is shared between
+// the connection's handling goroutine and its receiver, sender and summary goroutines.
+
+//@ type handlerWithLogs
+//@   guarded_by counter : counterMutex
+//@   guarded_by sessionID, sessionUUID, participantID : idsMutex
+//@   lock_level counterMutex = 70
+//@   lock_level idsMutex = 80
+
+//@ func (*websocket.handlerWithLogs).Receiver$1
+//@   goroutine receiver
+
+//@ func (*websocket.handlerWithLogs).Sender$1
+//@   goroutine sender
+
+//@ func (*websocket.handlerWithLogs).startSummaryWorker
+//@   goroutine summary
+
 //@ spec fn joined(h *RealtimeHandler) bool = h.currentSession != nil && h.currentParticipant != nil
 //@ spec fn wfHandler(h *RealtimeHandler) bool = h.Sessions != nil
 //@     && ((h.currentSession == nil) <==> (h.currentParticipant == nil))
